@@ -355,6 +355,9 @@ func (r *Run) Finish() int {
 		}
 		samples = append(samples, map[string]any{"name": c.Name, "model": c.Model, "ops": ops, "impl": impl, "tags": c.Tags, "info": c.Info})
 	}
+	if r.assume == nil {
+		r.assume = []string{}
+	}
 	part := map[string]any{
 		"evaluations":                   r.cases,
 		"distinct_nontrivial":           len(r.nontriv),
